@@ -1,0 +1,226 @@
+//! Verification hooks living inside `session` (child module: sees private state). Compiled only
+//! with the cargo feature `verif`.
+#![allow(missing_docs)]
+
+use super::*;
+use crate::verif::VerifEvent;
+use tokio::io::DuplexStream;
+
+#[derive(Debug, Clone, PartialEq)]
+pub struct PeerSnap {
+    pub addr: String,
+    pub id: Option<[u8; PEER_ID_SIZE]>,
+    pub pieces: Vec<bool>,
+    pub piece_index: Option<usize>,
+    pub am_interested: bool,
+    pub am_choked: bool,
+    pub interested: bool,
+    pub choked: bool,
+    pub optimistic_unchoke: bool,
+    pub download_rate: Option<u32>,
+    pub uploaded_rate: Option<u32>,
+}
+
+#[derive(Debug, Clone, PartialEq)]
+pub struct Snapshot {
+    pub statuses: Vec<Status>,
+    pub peers: Vec<PeerSnap>,
+    pub candidates: Vec<String>,
+    pub files_extracted: bool,
+    pub round: usize,
+}
+
+/// Control messages of `verif_event_loop`.
+pub enum VerifCtl {
+    /// An in-memory connection coming in from `addr` (stands for `listener.accept()`).
+    Incoming { addr: String, mem: DuplexStream },
+    /// Ask for the manager's state (also proves the loop is alive).
+    Snapshot(oneshot::Sender<Snapshot>),
+    /// Leave the loop.
+    Stop,
+}
+
+fn cmd_summary(cmd: &PeerCmd) -> (&'static str, String, Option<usize>, String) {
+    match cmd {
+        PeerCmd::Init { addr, .. } => ("Init", addr.clone(), None, String::new()),
+        PeerCmd::RecvChoke { addr } => ("RecvChoke", addr.clone(), None, String::new()),
+        PeerCmd::RecvUnchoke { addr, .. } => ("RecvUnchoke", addr.clone(), None, String::new()),
+        PeerCmd::RecvInterested { addr } => ("RecvInterested", addr.clone(), None, String::new()),
+        PeerCmd::RecvNotInterested { addr, .. } => {
+            ("RecvNotInterested", addr.clone(), None, String::new())
+        }
+        PeerCmd::RecvHave {
+            addr, piece_index, ..
+        } => ("RecvHave", addr.clone(), Some(*piece_index), String::new()),
+        PeerCmd::RecvBitfield { addr, .. } => ("RecvBitfield", addr.clone(), None, String::new()),
+        PeerCmd::RecvRequest {
+            addr, piece_index, ..
+        } => ("RecvRequest", addr.clone(), Some(*piece_index), String::new()),
+        PeerCmd::PieceDone { addr, .. } => ("PieceDone", addr.clone(), None, String::new()),
+        PeerCmd::PieceCancel { addr, .. } => ("PieceCancel", addr.clone(), None, String::new()),
+        PeerCmd::SyncStats { addr, .. } => ("SyncStats", addr.clone(), None, String::new()),
+        PeerCmd::KillReq { addr, reason } => ("KillReq", addr.clone(), None, reason.clone()),
+    }
+}
+
+impl Session {
+    pub fn verif_snapshot(&self) -> Snapshot {
+        let mut peers: Vec<PeerSnap> = self
+            .peers
+            .iter()
+            .map(|(addr, p)| PeerSnap {
+                addr: addr.clone(),
+                id: p.id,
+                pieces: p.pieces.clone(),
+                piece_index: p.piece_index,
+                am_interested: p.am_interested,
+                am_choked: p.am_choked,
+                interested: p.interested,
+                choked: p.choked,
+                optimistic_unchoke: p.optimistic_unchoke,
+                download_rate: p.download_rate,
+                uploaded_rate: p.uploaded_rate,
+            })
+            .collect();
+        peers.sort_by(|a, b| a.addr.cmp(&b.addr));
+        Snapshot {
+            statuses: self.pieces_status.clone(),
+            peers,
+            candidates: self.candidates.iter().map(|(a, _)| a.clone()).collect(),
+            files_extracted: self.files_extracted,
+            round: self.round,
+        }
+    }
+
+    fn verif_emit(&self, kind: &'static str, addr: String, arg: Option<usize>, text: String) {
+        crate::verif::emit(VerifEvent::Manager {
+            seq: crate::verif::next_seq(),
+            kind,
+            addr,
+            arg,
+            text,
+            after: self.verif_snapshot(),
+        });
+    }
+
+    /// Same as `spawn_peer_listener`, for an in-memory incoming connection.
+    pub async fn verif_spawn_mem_listener(&mut self, addr: String, mem: DuplexStream) {
+        let am_not_interested = self
+            .peers
+            .iter()
+            .filter(|(_, peer)| !peer.am_interested)
+            .count();
+        if am_not_interested >= MAX_NOT_INTERESTED {
+            return;
+        }
+
+        let mut peer_handler = PeerHandler::new(
+            addr.clone(),
+            self.own_id,
+            None,
+            *self.metainfo.info_hash(),
+            self.metainfo.pieces_num(),
+            self.general_channels.tx.clone(),
+            self.general_channels.broad.subscribe(),
+        );
+
+        let job = tokio::spawn(async move { peer_handler.run_mem(mem).await });
+
+        self.log("New peer connect from: ".to_string() + &addr.as_str())
+            .await;
+        let peer = Peer::new(None, self.metainfo.pieces_num(), job);
+        self.peers.insert(addr, peer);
+    }
+
+    /// Mirror of `run` + `event_loop`: the TCP listener is replaced by the in-memory accept queue
+    /// `ctl`, and one `VerifEvent::Manager` is emitted after every handled event. Everything the
+    /// arms call is the production code.
+    pub async fn verif_event_loop(&mut self, mut ctl: mpsc::Receiver<VerifCtl>, with_tracker: bool) {
+        if with_tracker {
+            self.spawn_tracker();
+        }
+
+        let mut change_state_timer = self.start_change_conn_state_timer();
+
+        loop {
+            tokio::select! {
+                _ = change_state_timer.tick() => {
+                    self.timeout_change_conn_state().await.expect("Can't change connection state");
+                    self.verif_emit("Rotation", String::new(), None, String::new());
+                }
+                Some(c) = ctl.recv() => match c {
+                    VerifCtl::Incoming { addr, mem } => {
+                        self.verif_spawn_mem_listener(addr.clone(), mem).await;
+                        self.verif_emit("Incoming", addr, None, String::new());
+                    }
+                    VerifCtl::Snapshot(tx) => {
+                        let _ = tx.send(self.verif_snapshot());
+                    }
+                    VerifCtl::Stop => break,
+                },
+                Some(cmd) = self.tracker.rx_ch.recv() => {
+                    let (kind, text) = match &cmd {
+                        TrackerCmd::TrackerResp(resp) => ("TrackerResp", format!("{}", resp.peers().len())),
+                        TrackerCmd::Fail(e) => ("TrackerFail", e.clone()),
+                    };
+                    self.handle_tracker_cmd(cmd).await;
+                    self.verif_emit(kind, String::new(), None, text);
+                }
+                Some(cmd) = self.extractor.rx_ch.recv() => {
+                    let (kind, text) = match &cmd {
+                        ExtractorCmd::Done => ("ExtractorDone", String::new()),
+                        ExtractorCmd::Fail(e) => ("ExtractorFail", e.clone()),
+                    };
+                    self.handle_extractor_cmd(cmd).await;
+                    self.verif_emit(kind, String::new(), None, text);
+                }
+                Some(cmd) = self.general_channels.rx.recv() => {
+                    let (kind, addr, arg, text) = cmd_summary(&cmd);
+                    if self.handle_peer_cmd(cmd).await.expect("Can't handle command") == false {
+                        self.kill_view().await;
+                        break;
+                    }
+                    self.verif_emit(kind, addr, arg, text);
+                }
+            }
+        }
+    }
+
+    /// Insert a peer entry without a connection task (direct-drive harness).
+    pub fn verif_add_peer(&mut self, addr: &str, id: Option<[u8; PEER_ID_SIZE]>) {
+        let job = tokio::spawn(async {});
+        self.peers.insert(
+            addr.to_string(),
+            Peer::new(id, self.metainfo.pieces_num(), job),
+        );
+    }
+
+    /// `handle_peer_cmd`, called directly.
+    pub async fn verif_handle(&mut self, cmd: PeerCmd) -> Result<bool, Error> {
+        self.handle_peer_cmd(cmd).await
+    }
+
+    /// `choose_piece_index`, called directly.
+    pub async fn verif_choose(&mut self, addr: &str) -> Option<usize> {
+        self.choose_piece_index(&addr.to_string()).await
+    }
+
+    pub fn verif_set_status(&mut self, piece_index: usize, status: Status) {
+        self.pieces_status[piece_index] = status;
+    }
+
+    /// `timeout_change_conn_state`, called directly (one choke rotation).
+    pub async fn verif_rotate(&mut self) -> Result<(), String> {
+        self.timeout_change_conn_state()
+            .await
+            .map_err(|e| e.to_string())
+    }
+
+    pub fn verif_subscribe(&self) -> broadcast::Receiver<BroadCmd> {
+        self.general_channels.broad.subscribe()
+    }
+
+    pub fn verif_peer_tx(&self) -> mpsc::Sender<PeerCmd> {
+        self.general_channels.tx.clone()
+    }
+}
